@@ -202,13 +202,26 @@ def oracle_c22(w, ref, res, case):
         if rows is None or sib is None:
             f.append(("output-missing:" + a["rel"], "counter relation or its sibling was not written"))
             continue
+        dup = False
         for line in rows:
             cols = line.split(b"\t")
-            v = cols[a["idcol"]]
-            if v in seen:
-                f.append(("autoinc-duplicate", "auto-increment value %s occurs twice (relations %s and %s)" % (v.decode(), seen[v], a["rel"])))
+            for ic in a.get("idcols", [a["idcol"]]):
+                v = cols[ic]
+                if a.get("mul"):
+                    # the column holds counter*mul+add: recover the counter value (an inexact division is itself a wrong value)
+                    q, rem = divmod(int(v) - a["add"], a["mul"])
+                    if rem:
+                        f.append(("autoinc-value", "%s holds %s which is not counter*%d+%d" % (a["rel"], v.decode(), a["mul"], a["add"])))
+                        dup = True
+                        break
+                    v = b"%d" % q
+                if v in seen:
+                    f.append(("autoinc-duplicate", "auto-increment value %s occurs twice (relations %s and %s)" % (v.decode(), seen[v], a["rel"])))
+                    dup = True
+                    break
+                seen[v] = a["rel"]
+            if dup:
                 break
-            seen[v] = a["rel"]
         if len(rows) != len(sib):
             f.append(("autoinc-count", "%s has %d tuples but its body has %d instantiations (%s)" % (a["rel"], len(rows), len(sib), a["sibling"])))
     return f
